@@ -87,11 +87,24 @@ def direct_oracle(c):
             r3 = run_stream(lambda: ds2.sort(sort_fn=natsorted, reverse=c['reverse']).items(), conv=lambda x: x)
             if r3['err'] is not None or [k for k, _ in r3['vals']] != natsorted(nk, reverse=c['reverse']):
                 fails.append(('sort_fn_by_dataset_keys', {'keys': nk, 'got': [k for k, _ in r3['vals']], 'want': natsorted(nk, reverse=c['reverse'])}))
-            r4 = run_stream(lambda: ds2.sort(keyf, sort_fn=natsorted, reverse=c['reverse']), conv=lambda x: x)
-            if r4['err'] is None:
+            # a custom sort function together with a key function: it receives what `sorted` would
+            # receive (pairs of sort value and running index), so ties keep the examples apart
+            def my_sorted(seq, reverse=False):
+                return sorted(list(seq), reverse=reverse)
+            for dsx in (ds, ds2):
+                r4 = run_stream(lambda: dsx.sort(keyf, sort_fn=my_sorted, reverse=c['reverse']), conv=lambda x: x)
+                if r4['err'] is not None:
+                    fails.append(('sort_fn_with_key_fn_raises', {'err': r4['err']}))
+                    continue
                 ks4 = [keyf(e) for e in r4['vals']]
                 if ks4 != sorted(ks4, reverse=c['reverse']):
                     fails.append(('sort_fn_with_key_fn', {'keys': ks4}))
+                if sorted(e['pos'] for e in r4['vals']) != list(range(len(vals))):
+                    fails.append(('sort_fn_with_key_fn_perm', {'got': [e['pos'] for e in r4['vals']], 'sort_values': [keyf(e) for e in examples]}))
+                ref4 = run_stream(lambda: dsx.sort(keyf, reverse=c['reverse']), conv=lambda x: x)
+                if ref4['err'] is None and [e['pos'] for e in ref4['vals']] != [e['pos'] for e in r4['vals']]:
+                    fails.append(('sort_fn_equivalent_to_sorted_differs', {'builtin': [e['pos'] for e in ref4['vals']],
+                                                                          'custom': [e['pos'] for e in r4['vals']]}))
         # groupby
         try:
             groups = ds.groupby(keyf)
